@@ -316,7 +316,7 @@ func (d *rdriver) step() {
 	s := d.s
 	c := s.clients[d.pick(len(s.clients))]
 	switch r := d.pick(100); {
-	case r < 5: // client management
+	case r < 4: // client management
 		switch d.pick(6) {
 		case 0, 1:
 			s.register(c, d.chance(80) && d.sessions < 14)
@@ -362,6 +362,23 @@ func (d *rdriver) step() {
 					c.forget()
 				}
 			}
+		}
+	case r < 10 && len(c.sess) > 0 && len(c.locks) > 0:
+		// Downgrade an open that has lock state under it, then open
+		// the file again with more access by the same open-owner.
+		lc := d.someLock(c)
+		oc, ok := c.opens[lc.openOther]
+		if !ok || oc.fh == nil {
+			return
+		}
+		sn := d.pick(len(c.sess))
+		s.doOn(c, sn, d.pick(nSlots), true, putfh(oc.fh), downgrade(oc.sid, uint32(1+d.pick(2))))
+		if d.chance(30) {
+			s.doOn(c, sn, d.pick(nSlots), true, putfh(oc.fh), read(lc.sid))
+		}
+		s.doOn(c, sn, d.pick(nSlots), true, putfh(oc.fh), openFH(oc.oo, uint32(1+d.pick(3)), "FH"))
+		if d.chance(50) {
+			s.doOn(c, sn, d.pick(nSlots), true, putfh(oc.fh), closeOp(oc.sid))
 		}
 	case r < 11:
 		t := 1 + d.pick(4)
